@@ -27,6 +27,9 @@ type starlarkPackageCollector struct {
 	defaultPlatforms []string
 }
 
+// loadContextLocalKey is the thread-local key under which the context of the load is stored
+const loadContextLocalKey = "grog.loadContext"
+
 // moduleLoadContext tracks loaded modules and in-progress loads for cycle detection
 type moduleLoadContext struct {
 	// cache stores already-loaded modules
@@ -70,6 +73,11 @@ func (sl StarlarkLoader) Load(ctx context.Context, filePath string) (PackageDTO,
 			return sl.loadModule(thread, module, filePath, collector, loadContext)
 		},
 	}
+
+	// Stop the evaluation when the load is cancelled (interrupt, or another package failed to load)
+	thread.SetLocal(loadContextLocalKey, ctx)
+	stopWatching := context.AfterFunc(ctx, func() { thread.Cancel(context.Cause(ctx).Error()) })
+	defer stopWatching()
 
 	// Execute the Starlark file
 	_, err := starlark.ExecFile(thread, filePath, nil, predeclared)
@@ -149,6 +157,13 @@ func (sl StarlarkLoader) loadModule(thread *starlark.Thread, module string, curr
 		Load: func(threadInner *starlark.Thread, moduleInner string) (starlark.StringDict, error) {
 			return sl.loadModule(threadInner, moduleInner, modulePath, collector, loadContext)
 		},
+	}
+
+	// Modules run on their own thread: it has to observe the cancellation of the load as well
+	if ctx, ok := thread.Local(loadContextLocalKey).(context.Context); ok {
+		moduleThread.SetLocal(loadContextLocalKey, ctx)
+		stopWatching := context.AfterFunc(ctx, func() { moduleThread.Cancel(context.Cause(ctx).Error()) })
+		defer stopWatching()
 	}
 
 	// Execute the module
